@@ -26,7 +26,8 @@ def main():
                 continue
             diff = os.path.join(SRC, prop, X + ".diff")
             ported = os.path.join("/verif/seeded", sid, "patch.diff")
-            if not os.path.exists(diff):
+            if not os.path.exists(diff) or not os.path.exists(os.path.join(SRC, prop, X + "_meta.json")) \
+                    or not os.path.exists(os.path.join(SRC, prop, X + "_demo.py")):
                 continue
             use = ported if os.path.exists(ported) and os.path.getsize(ported) > 0 else diff
             demo = os.path.join(SRC, prop, X + "_demo.py")
